@@ -4,7 +4,8 @@
 (* replaced by a reader that returns the recorded 32 bytes; "Name":         *)
 (* selection.EnsureNameValid and identifier.IsValid on one name.            *)
 (* Identifiers, prefixes and names are recorded character by character.     *)
-(* Distinctness is judged over the whole run.                               *)
+(* Distinctness is judged over the whole run, which is therefore one case  *)
+(* ("Begin" record with the seed; a replay repeats the run).                *)
 (***************************************************************************)
 EXTENDS Identifier, TraceKit
 CONSTANTS Want
@@ -64,6 +65,7 @@ Step == /\ l <= NRec
              /\ nname' = IF wf /\ r.in.dom = "gram" THEN nname + 1 ELSE nname
              /\ drift' = IF wf /\ "Conforms" \in Want /\ ~NameConforms(r) THEN drift + 1 ELSE drift
              /\ UNCHANGED <<ids, ins, prevP, npat, nid>>
+           ELSE IF r.ev = "Begin" THEN UNCHANGED <<fails, ids, ins, prevP, prevN, npat, nname, nid, drift>>
            ELSE /\ fails' = Cap(Append(fails, Fail(l, "C39_TraceAccepted")))
                 /\ UNCHANGED <<ids, ins, prevP, prevN, npat, nname, nid, drift>>
         /\ l' = l + 1 /\ UNCHANGED done
